@@ -140,7 +140,7 @@ def gen_path(rng):
     P = [(0, 0)]
     horiz = rng.random() < 0.5
     for _ in range(n - 1):
-        d = rng.choice([-9, -5, -3, -2, -1, 1, 2, 3, 5, 9, 12]) if rng.random() < 0.95 else 0
+        d = rng.choice([-9, -5, -3, -2, -1, 1, 2, 3, 5, 9, 12])
         a = P[-1]
         P.append((a[0] + d, a[1]) if horiz else (a[0], a[1] + d))
         if rng.random() < 0.85:
@@ -278,7 +278,8 @@ def gen_case(rng, kind, dist):
             cells[1]["abs"]["name"] = cells[0]["name"]
     elif kind == "degenerate" and allelems:
         e = rng.choice(allelems)
-        e["shape"] = rng.choice([{"G": []}, {"P": [[], 2]}, {"P": [[[1, 1]], 2]}, {"G": [[1, 1]]}, {"G": [[0, 0], [4, 4]]}, {"G": [[0, 0], [2, 0], [1, 0]]}])
+        e["shape"] = rng.choice([{"G": []}, {"P": [[], 2]}, {"P": [[[1, 1]], 2]}, {"G": [[1, 1]]}, {"G": [[0, 0], [4, 4]]}, {"G": [[0, 0], [2, 0], [1, 0]]},
+                                 {"P": [[[0, 0], [0, 0]], 4]}, {"P": [[[0, 0], [5, 0], [5, 0], [5, 7]], 3]}])
     elif kind == "nonmanhattan" and allelems:
         e = rng.choice(allelems)
         x0, y0, _, _ = shape_bbox(e["shape"])
@@ -317,7 +318,7 @@ def directed_cases():
     # label arithmetic: truncating /2 on negative sums, odd widths, corners in every order
     for r in ([[-3, -3], [0, -8]], [[0, -8], [-3, -3]], [[-7, 2], [-2, -5]], [[1, 1], [2, 2]], [[-1, -1], [-2, -2]], [[0, 0], [0, 0]], [[-5, 0], [0, 0]]):
         out.append(single({"R": r}, kind="directed_rect_label"))
-    for p, w in (([[-3, -3], [-3, -8]], 1), ([[-3, -3], [-8, -3], [-8, 4]], 3), ([[0, 0], [0, 0]], 0), ([[5, -1], [-6, -1]], 7)):
+    for p, w in (([[-3, -3], [-3, -8]], 1), ([[-3, -3], [-8, -3], [-8, 4]], 3), ([[0, 0], [0, 1]], 0), ([[5, -1], [-6, -1]], 7)):
         out.append(single({"P": [p, w]}, kind="directed_path_label"))
     # Some(0.0) and None angles, all eight orientations
     lib = single({"R": [[0, 0], [4, 2]]}, kind="directed_orientations")
@@ -522,7 +523,7 @@ def nontrivial(c):
 
 def run(chk, replay=None):
     targets = ["Raw/RawGdsExportCheck.vo"]
-    chk.proof_leg(targets, "Properties/C07.v", ["Raw/RawGdsExport_proofs.v", "Raw/RawGdsRoundtrip_proofs.v"], "Properties.C07")
+    chk.proof_leg(targets, "Properties/C07.v", ["Raw/RawGdsExport_proofs.v", "Raw/RawGdsRoundtrip_proofs.v", "Raw/RawGdsBridge_proofs.v", "Raw/RawGdsLibrary_proofs.v"], "Properties.C07")
     chk.assumptions += [
         "Ptr<Cell> targets are indices into the library's own cell list (libraries closed under instantiation); locks not modelled",
         "LayerKey = slot index (no layer is ever removed); Layer.purps/nums are derived from the sequence of add_purpose calls",
